@@ -22,6 +22,7 @@ def run(tier, seed):
         p["obs"] = [{"obs": "struct"}, {"obs": "initpop", "params": pv},
                     {"obs": "oracle", "name": "c12", "params": pv, "times": p["times"]}]
     progs.append(carrier([{"obs": "oracle", "name": "c12_dates", "seed": seed, "n": 20 if tier == "quick" else 300}]))
+    progs.append(carrier([{"obs": "oracle", "name": "c12_grid", "seed": seed, "n": 40 if tier == "quick" else 600}]))
     # the collision probe is compared on the implementation only (the model identifies compartments
     # structurally, see DESIGN.md name hygiene)
     ex = checklib.explore(progs, keys=KEYS, obs_filter=None)
@@ -34,5 +35,6 @@ def run(tier, seed):
                     "and non-integer timesteps, non-zero start times; compartment list, flow endpoints, number of times and "
                     "initial population compared with the model; on the implementation: times grid, outputs shape, endpoint "
                     "indices, data-frame labels, row 0, distinct names; 20/300 random reference dates for the date labels and "
-                    "the datetime round trip; non-trivial = stratified at least once",
+                    "the datetime round trip; decimal (non-dyadic) time specifications: whenever accepted, the grid is start + k * timestep "
+                    "with one output row per time; non-trivial = stratified at least once",
             "dist": dist(progs)}
